@@ -484,3 +484,48 @@ obtain_counts = Contract(
     assumptions=['multiprocessing.Pool.imap_unordered yields the results of count_function in an arbitrary order (A6)'],
 )
 UNITS.append(obtain_counts)
+
+
+# ------------------------------------------------------------------------------ generate_commands: one command per job, in the slots
+# count_fragments_binned unpacks (the two functions agree on the tuple only by position)
+def gc_setup(eng):
+    eng.ghost.clear()
+    eng.spec_env['GHOST'] = eng.ghost
+    jobs = {'a.bam': [('chr1', 0, 200), ('chr1', 200, 400), ('chr2', 0, 200)], 'b.bam': [('chr1', 0, 200)]}
+    eng.spec_env['JOBS'] = jobs
+    eng.loader.call_hooks['singlecellmultiomics.bamProcessing.bamBinCounts.generate_jobs'] = \
+        lambda e, f, a, k, n: list(jobs[k.get('alignments_path', a[0] if a else None)])
+
+
+UNPACK = ('(lambda c: {"alignments_path": c[0], "bin_size": c[1], "max_fragment_size": c[2], "contig": c[3], "start": c[4], '
+          '"end": c[5], "min_mq": c[6], "alt_spans": c[7], "key_tags": c[8], "dedup": c[9], "kwargs": c[10]})')
+generate_commands = Contract(
+    PROP, F + '::generate_commands', name='generate_commands',
+    params={'alignments_path': ('const', ['a.bam', 'b.bam']), 'bin_size': 'int', 'bins_per_job': 'int', 'alt_spans': 'none',
+            'min_mq': 'int', 'max_fragment_size': 'int', 'head': 'none', 'key_tags': ('const', ('DA',)), 'dedup': 'bool',
+            'kwargs': ('const', {'ignore_mp': True}), 'skip_contigs': 'none'},
+    cases=[{}, {'alignments_path': ('const', 'a.bam')}, {'skip_contigs': ('const', {'chr2'})}],
+    setup=gc_setup,
+    ensures={
+        'one_command_per_job_of_every_file_in_order':
+            '[(c[0], c[3], c[4], c[5]) for c in list(result)] == EXPECTED',
+        'settings_in_the_slots_count_fragments_binned_unpacks':
+            'all((lambda u: u["bin_size"] == bin_size and u["max_fragment_size"] == max_fragment_size and u["min_mq"] == min_mq and '
+            'u["alt_spans"] is None and u["key_tags"] == ("DA",) and u["dedup"] == dedup and u["kwargs"] == {"ignore_mp": True})'
+            '(%s(c)) for c in list(result))' % UNPACK,
+    },
+    raises={},
+    bounded='two files with 3 + 1 jobs',
+    assumptions=['generate_jobs through its own contract above (a fixed job list per file here)'],
+)
+
+
+def _gc_pre(eng, fr):
+    paths = fr.env['alignments_path']
+    paths = paths if isinstance(paths, list) else [paths]
+    skip = fr.env['skip_contigs'] or set()
+    eng.spec_env['EXPECTED'] = [(p, c, s, e) for p in paths for (c, s, e) in eng.spec_env['JOBS'][p] if c not in skip]
+
+
+generate_commands.pre_state = _gc_pre
+UNITS.append(generate_commands)
